@@ -660,6 +660,7 @@ def check_recursion(repo, res, facts, cg):
     from .. import api_model
     api_model.apply(res, [r for r in api_model.evaluate_model(repo) if 'terminates' in r[1]], {'guard': 'C08-R4'}, 'supp/evaluator.py', 0)
     api_model.apply(res, api_model.declarations_model(repo), {'cycle': 'C08-R4'}, 'supp/evaluator.py', 0)
+    api_model.apply(res, api_model.list_packages_model(repo), {'lp-total': 'C08-R1'}, 'supp/project.py', 0)
     # those guards compare by identity: the project must hand out one module object per name within a request
     api_model.apply(res, api_model.cache_history_model(repo, 3), {'identity': 'C08-R4'}, 'supp/project.py', 0)
     check_path_climbing(repo, res, facts)
